@@ -139,7 +139,14 @@ def check(spec, ctx):
     flat = [x for row in mat for x in row]
     nontrivial = n >= 2 and m >= 2 and any(x == 0 for x in flat) and any(x > 0 for x in flat)
     ties = len(set(spec["src"])) < n or len(set(spec["tgt"])) < m
+    from vf.core import snapshot
+
+    before = snapshot((src, tgt))
     out = ctx.call(spec, f"match_geometries({n}x{m})", lambda: list(match_geometries(src, tgt, time_buffer=tb, freq_buffer=fb)))
+    ctx.unchanged(spec, "match_geometries: source / target lists", before, (src, tgt))
+    again = list(match_geometries(src, tgt, time_buffer=tb, freq_buffer=fb))
+    if [(a, b, c) for a, b, c in again] != [(a, b, c) for a, b, c in out]:
+        ctx.fail("match_geometries gives a different answer when called again with the same arguments", spec, again, out, kind="not_repeatable")
     ctx.case(spec, nontrivial=nontrivial, labels=[f"size={n}x{m}", "ties" if ties else "noties", "allzero" if flat and not any(flat) else "mixed"], out={"matches": [[a, b, c] for a, b, c in out]})
 
     seen_s, seen_t = [], []
